@@ -16,6 +16,7 @@ import (
 	"strings"
 
 	"github.com/open2b/scriggo/ast"
+	"github.com/open2b/scriggo/native"
 )
 
 // ---- specification helpers (interpreted by govc) ----
@@ -674,6 +675,167 @@ func lemmaJSPieceDecodes(s string, k int) bool {
 //@   requires 0 <= k && k < len(s)
 //@   ensures result
 
+// ---------------------------------------------------------------------------
+// Alphabet lemmas (C06): no byte an escaper emits - kept or inside a
+// replacement, for every string, position k and offset j in the replacement -
+// is one that would end the syntactic slot of its context or start a construct
+// of the host language; the escape introducer ('&', '\', '%') appears only as
+// the first byte of one of the escaper's own sequences.
+// ---------------------------------------------------------------------------
+
+// HTML text and quoted attribute values: no '<' or '>' (tags), no quotes (end
+// of the attribute value), and '&' only starts the escaper's own references.
+func lemmaHTMLConfined(s string, k, j int) bool {
+	p := specPieceHTML(s, k)
+	if p == "" {
+		c := s[k]
+		return c != '<' && c != '>' && c != '"' && c != '\'' && c != '&'
+	}
+	if j < 0 || j >= len(p) {
+		return true
+	}
+	c := p[j]
+	return c != '<' && c != '>' && c != '"' && c != '\'' && (c != '&' || j == 0)
+}
+
+//@ func lemmaHTMLConfined
+//@   props C06
+//@   requires 0 <= k && k < len(s)
+//@   ensures result
+
+// Trusted HTML inside a quoted attribute: '&' is kept, the rest as above.
+func lemmaHTMLNoEntConfined(s string, k, j int) bool {
+	p := specPieceHTMLNoEnt(s, k)
+	if p == "" {
+		c := s[k]
+		return c != '<' && c != '>' && c != '"' && c != '\''
+	}
+	if j < 0 || j >= len(p) {
+		return true
+	}
+	c := p[j]
+	return c != '<' && c != '>' && c != '"' && c != '\''
+}
+
+//@ func lemmaHTMLNoEntConfined
+//@   props C06
+//@   requires 0 <= k && k < len(s)
+//@   ensures result
+
+// Unquoted attribute values end at white space or '>' and may not contain
+// quotes, '=', '<' or '`' (https://html.spec.whatwg.org/#unquoted).
+func specEndsUnquoted(c byte) bool {
+	switch c {
+	case '\t', '\n', '\x0C', '\r', ' ', '"', '\'', '=', '<', '>', '`':
+		return true
+	}
+	return false
+}
+
+func lemmaAttrUConfined(s string, k, j int, ent bool) bool {
+	p := specPieceAttrU(s, k, ent)
+	if p == "" {
+		return !specEndsUnquoted(s[k]) && (!ent || s[k] != '&')
+	}
+	if j < 0 || j >= len(p) {
+		return true
+	}
+	return !specEndsUnquoted(p[j]) && (p[j] != '&' || j == 0)
+}
+
+//@ func lemmaAttrUConfined
+//@   props C06
+//@   requires 0 <= k && k < len(s)
+//@   ensures result
+
+// CSS strings end at the matching quote or at an unescaped newline; '<' could
+// start "</style>", and the backslash only introduces the escaper's escapes.
+func specBreaksCSSString(c byte) bool {
+	return c == '"' || c == '\'' || c == '\n' || c == '\r' || c == '\x0C' || c == '<'
+}
+
+func lemmaCSSConfined(s string, k, j int) bool {
+	p := specPieceCSS(s, k)
+	if p == "" {
+		return !specBreaksCSSString(s[k]) && s[k] != '\\'
+	}
+	if j < 0 || j >= len(p) {
+		return true
+	}
+	return !specBreaksCSSString(p[j]) && (p[j] != '\\' || j == 0 || j == 1 && s[k] == '\\')
+}
+
+//@ func lemmaCSSConfined
+//@   props C06
+//@   requires 0 <= k && k < len(s)
+//@   ensures result
+
+// JavaScript and JSON string literals end at the matching quote or at a line
+// terminator; '<' could start "</script>" or "<!--", '&' a character reference
+// when the script is in an attribute; control characters are not allowed in JSON.
+func specBreaksJSString(c byte) bool {
+	return c == '"' || c == '\'' || c == '\n' || c == '\r' || c == '<' || c == '>' || c == '&' || c < 0x20
+}
+
+func lemmaJSConfined(s string, k, j int) bool {
+	p := specPieceJS(s, k)
+	if p == "" {
+		return !specBreaksJSString(s[k]) && s[k] != '\\' && !specLineSep(s, k) && !specLineSep(s, k-1) && !specLineSep(s, k-2)
+	}
+	if p == "\x00" || j < 0 || j >= len(p) {
+		return true
+	}
+	if len(p) == 2 {
+		// a single-character escape: the backslash and the character it protects
+		return p[0] == '\\' && (p[1] == 'b' || p[1] == 't' || p[1] == 'n' || p[1] == 'f' || p[1] == 'r' || p[1] == '"' || p[1] == '\\')
+	}
+	// \uXXXX
+	return len(p) == 6 && p[0] == '\\' && p[1] == 'u' && (j < 2 || specIsHexDigit(p[j]))
+}
+
+//@ func lemmaJSConfined
+//@   props C06
+//@   requires 0 <= k && k < len(s)
+//@   ensures result
+
+// URL query values: only unreserved characters and complete %XX triplets.
+func specQuerySafe(c byte) bool {
+	return '0' <= c && c <= '9' || 'a' <= c && c <= 'z' || 'A' <= c && c <= 'Z' || c == '-' || c == '.' || c == '_'
+}
+
+func lemmaQueryConfined(s string, k, j int) bool {
+	p := specPieceQuery(s, k)
+	if p == "" {
+		return specQuerySafe(s[k])
+	}
+	return len(p) == 3 && p[0] == '%' && specIsHexDigit(p[1]) && specIsHexDigit(p[2])
+}
+
+//@ func lemmaQueryConfined
+//@   props C06
+//@   requires 0 <= k && k < len(s)
+//@   ensures result
+
+// URL paths in attribute values: nothing that ends the attribute (quotes,
+// '<', '>', and - unquoted - white space, '=', '`'), and '&' only starts the
+// escaper's own character references.
+func lemmaPathConfined(s string, k, j int, quoted bool) bool {
+	p := specPiecePath(s, k, quoted)
+	if p == "" {
+		c := s[k]
+		return c != '"' && c != '\'' && c != '<' && c != '>' && c != '`' && c != '&' && (quoted || c != ' ') && c != '\t' && c != '\n' && c != '\r' && c != '\x0C'
+	}
+	if j < 0 || j >= len(p) {
+		return true
+	}
+	return !specEndsUnquoted(p[j]) && (p[j] != '&' || j == 0)
+}
+
+//@ func lemmaPathConfined
+//@   props C06
+//@   requires 0 <= k && k < len(s)
+//@   ensures result
+
 //@ func isCDATA
 //@   props C05
 //@   requires 0 <= p
@@ -1264,12 +1426,41 @@ func wkey(w any) int { return 0 }
 //@   ensures[C13] wfailed(out) ==> result != nil && result == werr(out)
 //@   ensures[C13] wonly(out)
 
+// ---------------------------------------------------------------------------
+// C06, renderer side: whatever a show writes for a value that is not of a type
+// trusted in that context is exactly the output of the context's escaper for
+// some string (lastArgStr("f", 1): the string handed to the escaper f). The
+// escapers' functional contracts and the alphabet lemmas below then confine it
+// to the slot. Values of the trusted types are written as they are.
+// ---------------------------------------------------------------------------
+
+func lastArgStr(f string, i int) string { return "" }
+func lastArgBool(f string, i int) bool  { return false }
+
+// The types that may contribute markup in HTML context (native.HTML and its
+// stringer interfaces; native.Markdown is converted to HTML by the configured
+// converter).
+func specTrustedInHTML(v any) bool {
+	switch v.(type) {
+	case native.HTML, native.HTMLStringer, native.HTMLEnvStringer, native.Markdown:
+		return true
+	}
+	return false
+}
+
+// A []byte is not one of the trusted types, so it gets a clause of its own
+// (the second C06 clause of showInHTML).
+func specIsBytes(v any) bool { _, ok := v.([]byte); return ok }
+
 //@ func showInHTML
-//@   props C05 C13
+//@   props C05 C13 C06
 //@   opt writerprop C13
+//@   opt track htmlEscape
 //@   requires env != nil && !wfailed(out)
 //@   ensures[C13] wfailed(out) ==> result != nil && result == werr(out)
 //@   ensures[C13] wonly(out)
+//@   ensures[C06] result == nil && !specTrustedInHTML(value) && !specIsBytes(value) ==> called("htmlEscape") && wout(out) == cat(old(wout(out)), EscHTML(lastArgStr("htmlEscape", 1), 0, len(lastArgStr("htmlEscape", 1))))
+//@   ensures[C06] result == nil && specIsBytes(value) ==> called("htmlEscape") && wout(out) == cat(old(wout(out)), EscHTML(lastArgStr("htmlEscape", 1), 0, len(lastArgStr("htmlEscape", 1))))
 
 //@ func showInTag
 //@   props C05 C13
@@ -1278,12 +1469,27 @@ func wkey(w any) int { return 0 }
 //@   ensures[C13] wfailed(out) ==> result != nil && result == werr(out)
 //@   ensures[C13] wonly(out)
 
+// In attribute values even the trusted HTML types go through attributeEscape
+// (without entity escaping): no value can close the attribute.
+func specTrustedInAttr(v any) bool {
+	switch v.(type) {
+	case native.HTML, native.HTMLStringer, native.HTMLEnvStringer:
+		return true
+	}
+	return false
+}
+
 //@ func showInAttribute
-//@   props C05 C13
+//@   props C05 C13 C06
 //@   opt writerprop C13
+//@   opt track attributeEscape
 //@   requires env != nil && !wfailed(out)
 //@   ensures[C13] wfailed(out) ==> result != nil && result == werr(out)
 //@   ensures[C13] wonly(out)
+//@   ensures[C06] result == nil && quoted && !specTrustedInAttr(value) ==> wout(out) == cat(old(wout(out)), EscHTML(lastArgStr("attributeEscape", 1), 0, len(lastArgStr("attributeEscape", 1))))
+//@   ensures[C06] result == nil && quoted ==> wout(out) == cat(old(wout(out)), EscHTML(lastArgStr("attributeEscape", 1), 0, len(lastArgStr("attributeEscape", 1)))) || wout(out) == cat(old(wout(out)), EscHTMLNoEnt(lastArgStr("attributeEscape", 1), 0, len(lastArgStr("attributeEscape", 1))))
+//@   ensures[C06] result == nil && !quoted && !specTrustedInAttr(value) ==> wout(out) == cat(old(wout(out)), EscAttrU(lastArgStr("attributeEscape", 1), 0, len(lastArgStr("attributeEscape", 1)), true))
+//@   ensures[C06] result == nil && !quoted ==> wout(out) == cat(old(wout(out)), EscAttrU(lastArgStr("attributeEscape", 1), 0, len(lastArgStr("attributeEscape", 1)), true)) || wout(out) == cat(old(wout(out)), EscAttrU(lastArgStr("attributeEscape", 1), 0, len(lastArgStr("attributeEscape", 1)), false))
 
 //@ func showInCSS
 //@   props C05 C13
@@ -1292,19 +1498,27 @@ func wkey(w any) int { return 0 }
 //@   ensures[C13] wfailed(out) ==> result != nil && result == werr(out)
 //@   ensures[C13] wonly(out)
 
+// In a CSS string a []byte is written in Base64 by escapeBytes (standard
+// alphabet: letters, digits, '+', '/', '='; none of them ends the string);
+// every other value goes through cssStringEscape. No type is trusted here.
 //@ func showInCSSString
-//@   props C05 C13
+//@   props C05 C13 C06
 //@   opt writerprop C13
+//@   opt track cssStringEscape escapeBytes
 //@   requires env != nil && !wfailed(out)
 //@   ensures[C13] wfailed(out) ==> result != nil && result == werr(out)
 //@   ensures[C13] wonly(out)
+//@   ensures[C06] result == nil && !called("escapeBytes") ==> called("cssStringEscape") && wout(out) == cat(old(wout(out)), EscCSS(lastArgStr("cssStringEscape", 1), 0, len(lastArgStr("cssStringEscape", 1))))
 
+// JavaScript and JSON string literals: no type is trusted.
 //@ func showInJSString
-//@   props C05 C13
+//@   props C05 C13 C06
 //@   opt writerprop C13
+//@   opt track jsStringEscape
 //@   requires env != nil && !wfailed(out)
 //@   ensures[C13] wfailed(out) ==> result != nil && result == werr(out)
 //@   ensures[C13] wonly(out)
+//@   ensures[C06] result == nil ==> called("jsStringEscape") && wout(out) == cat(old(wout(out)), EscJS(lastArgStr("jsStringEscape", 1), 0, len(lastArgStr("jsStringEscape", 1))))
 
 //@ func showInJSONString
 //@   props C05 C13
@@ -1313,19 +1527,33 @@ func wkey(w any) int { return 0 }
 //@   ensures[C13] wfailed(out) ==> result != nil && result == werr(out)
 //@   ensures[C13] wonly(out)
 
+// Markdown: the markdown types are written as they are, the HTML types keep
+// their tags (allowHTML), everything else is escaped as plain text.
+func specTrustedInMarkdown(v any) bool {
+	switch v.(type) {
+	case native.Markdown, native.MarkdownStringer, native.MarkdownEnvStringer, native.HTML, native.HTMLStringer, native.HTMLEnvStringer:
+		return true
+	}
+	return false
+}
+
 //@ func showInMarkdown
-//@   props C05 C13
+//@   props C05 C13 C06 C26
 //@   opt writerprop C13
+//@   opt track markdownEscape
 //@   requires env != nil && !wfailed(out)
 //@   ensures[C13] wfailed(out) ==> result != nil && result == werr(out)
 //@   ensures[C13] wonly(out)
+//@   ensures[C06] result == nil && !specTrustedInMarkdown(value) ==> called("markdownEscape") && wout(out) == cat(old(wout(out)), EscMD(lastArgStr("markdownEscape", 1), 0, len(lastArgStr("markdownEscape", 1))))
 
 //@ func showInMarkdownCodeBlock
-//@   props C05 C13
+//@   props C05 C13 C06 C26
 //@   opt writerprop C13
+//@   opt track markdownCodeBlockEscape
 //@   requires env != nil && !wfailed(out)
 //@   ensures[C13] wfailed(out) ==> result != nil && result == werr(out)
 //@   ensures[C13] wonly(out)
+//@   ensures[C06] result == nil ==> called("markdownCodeBlockEscape") && wout(out) == cat(old(wout(out)), EscMDCode(lastArgStr("markdownCodeBlockEscape", 1), 0, len(lastArgStr("markdownCodeBlockEscape", 1)), spaces))
 
 //@ func (*renderer).showInURL
 //@   props C05 C13
@@ -1335,13 +1563,33 @@ func wkey(w any) int { return 0 }
 //@   ensures[C13] wfailed(r.out) ==> result != nil && result == werr(r.out)
 //@   ensures[C13] wonly(r.out)
 
+// Show hands the value to the show function of the context the lexer assigned
+// to the position (the context byte is decoded by decodeRenderContext, proved
+// equal to the emitter's encoding under C20).
+func specCtx(c Context) ast.Context { ctx, _, _ := decodeRenderContext(c); return ctx }
+func specInURL(c Context) bool      { _, u, _ := decodeRenderContext(c); return u }
+
 //@ func (*renderer).Show
 //@   props C05 C13 C06
 //@   opt writerprop C13
 //@   opt stable renderer
+//@   opt track showInURL showInText showInHTML showInTag showInAttribute showInCSS showInCSSString showInJS showInJSString showInJSON showInJSONString showInMarkdown showInMarkdownCodeBlock
 //@   panics allowed
 //@   requires env != nil && !wfailed(r.out)
 //@   ensures[C13] wfailed(r.out) ==> result != nil && result == werr(r.out)
+//@   ensures[C06] specInURL(context) ==> called("showInURL")
+//@   ensures[C06] !specInURL(context) && specCtx(context) == ast.ContextHTML ==> called("showInHTML")
+//@   ensures[C06] !specInURL(context) && specCtx(context) == ast.ContextTag ==> called("showInTag")
+//@   ensures[C06] !specInURL(context) && specCtx(context) == ast.ContextQuotedAttr ==> called("showInAttribute") && lastArgBool("showInAttribute", 3)
+//@   ensures[C06] !specInURL(context) && specCtx(context) == ast.ContextUnquotedAttr ==> called("showInAttribute") && !lastArgBool("showInAttribute", 3)
+//@   ensures[C06] !specInURL(context) && specCtx(context) == ast.ContextCSS ==> called("showInCSS")
+//@   ensures[C06] !specInURL(context) && specCtx(context) == ast.ContextCSSString ==> called("showInCSSString")
+//@   ensures[C06] !specInURL(context) && specCtx(context) == ast.ContextJS ==> called("showInJS")
+//@   ensures[C06] !specInURL(context) && specCtx(context) == ast.ContextJSString ==> called("showInJSString")
+//@   ensures[C06] !specInURL(context) && specCtx(context) == ast.ContextJSON ==> called("showInJSON")
+//@   ensures[C06] !specInURL(context) && specCtx(context) == ast.ContextJSONString ==> called("showInJSONString")
+//@   ensures[C06] !specInURL(context) && specCtx(context) == ast.ContextMarkdown ==> called("showInMarkdown")
+//@   ensures[C06] !specInURL(context) && (specCtx(context) == ast.ContextTabCodeBlock || specCtx(context) == ast.ContextSpacesCodeBlock) ==> called("showInMarkdownCodeBlock")
 
 //@ func parseTagValue
 //@   props C05
